@@ -144,8 +144,34 @@ class VFS(object):
         self.op('remove', path)
         self.files.pop(path, None)
 
+    DIRS = ('/inst/output', '/inst/conf', '/inst')
+
     def exists(self, path):
-        return path in self.files or path in ('/inst/output', '/inst/conf', '/inst')
+        return path in self.files or path in self.DIRS
+
+    def isfile(self, path):
+        return path in self.files
+
+    def isdir(self, path):
+        return path in self.DIRS
+
+    def getsize(self, path):
+        if path not in self.files:
+            raise FileNotFoundError(path)
+        return len(self.files[path])
+
+    def copyfile(self, src, dst, *a, **k):
+        self.op('open-w', dst)
+        if src not in self.files:
+            raise FileNotFoundError(src)
+        self.files[dst] = ''
+        self.op('write', dst)
+        self.files[dst] = self.files[src]
+        return dst
+
+    def move(self, src, dst, *a, **k):
+        self.rename(src, dst)
+        return dst
 
 
 class _PathProxy(object):
@@ -153,8 +179,10 @@ class _PathProxy(object):
         self._v = vfs
 
     def __getattr__(self, n):
-        if n == 'exists':
+        if n in ('exists', 'lexists'):
             return self._v.exists
+        if n in ('isfile', 'isdir', 'getsize'):
+            return getattr(self._v, n)
         return getattr(os.path, n)
 
 
@@ -166,7 +194,22 @@ class _OsProxy(object):
     def __getattr__(self, n):
         if n in ('rename', 'remove', 'replace'):
             return getattr(self._v, n)
+        if n == 'unlink':
+            return self._v.remove
         return getattr(os, n)
+
+
+class _ShutilProxy(object):
+    def __init__(self, vfs):
+        self._v = vfs
+
+    def __getattr__(self, n):
+        if n in ('copyfile', 'copy', 'copy2'):
+            return self._v.copyfile
+        if n == 'move':
+            return self._v.move
+        import shutil
+        return getattr(shutil, n)
 
 
 class _Clock(object):
@@ -196,6 +239,9 @@ class Patched(object):
             mod.open = self.vfs.open
             self.saved.append((mod, 'os', mod.os, True))
             mod.os = osp
+            if hasattr(mod, 'shutil'):
+                self.saved.append((mod, 'shutil', mod.shutil, True))
+                mod.shutil = _ShutilProxy(self.vfs)
         self.saved.append((configparser, 'open', configparser.__dict__.get('open', None), 'open' in configparser.__dict__))
         configparser.open = self.vfs.open
         self.saved.append((data, 'datetime', data.datetime, True))
